@@ -8,3 +8,5 @@ const haveBLS = false
 const buildPrefix = "psown-"
 
 func blsCase(n, t int) harness.Case { return harness.Case{} }
+
+func concurrentBLSCases() []harness.Case { return nil }
